@@ -171,6 +171,13 @@ func (w *World) oracleOnFip(m *simkube.Mutation) {
 			}
 		}
 	}
+	if newF != nil && isPodKey(newF.Key) {
+		for _, o := range w.K.List("floatingips", "") {
+			if f := decodeFip(o); f.Key == newF.Key && f.IP != ip {
+				w.M.multiIP[newF.Key] = true // the key holds several IPs at once (a multi-IP pod)
+			}
+		}
+	}
 	switch {
 	case newF == nil:
 		delete(w.M.allocs, ip)
@@ -245,7 +252,8 @@ func (w *World) oracleOnFip(m *simkube.Mutation) {
 			if moved {
 				what = fmt.Sprintf("handed from %q to %q", oldF.Key, newF.Key)
 			}
-			w.fail("C10.freed-while-assigned", w.c04Key("freed-while-assigned", oldF.Key, 0),
+			key := w.c10Key("freed-while-assigned", oldF.Key)
+			w.fail("C10.freed-while-assigned", key,
 				"FloatingIP %s %s by %s while the provider still has it assigned to node %s", ip, what, m.By.Name, w.cloud[ip])
 		}
 	}
@@ -277,7 +285,11 @@ func isPodKey(k string) bool {
 func (w *World) oracleOnCloudAssign(node, ip string) {
 	if w.armed("C10") {
 		if cur := w.cloud[ip]; cur != "" && cur != node {
-			w.fail("C10.assign-while-assigned", "assign-while-assigned",
+			owner := ""
+			if f := w.storeFip(ip); f != nil {
+				owner = f.Key
+			}
+			w.fail("C10.assign-while-assigned", w.c10Key("assign-while-assigned", owner),
 				"AssignIP(%s -> %s) while the provider still has it assigned to %s", ip, node, cur)
 		}
 	}
@@ -288,7 +300,7 @@ func (w *World) oracleOnCloudUnassign(node, ip string) {
 		// "every IP of a bound live pod is assigned to that pod's node" is an invariant, not only a condition at bind
 		for _, p := range w.livePodsWithIP(ip) {
 			if w.inNewestConf(ip) && p.Node == node {
-				w.fail("C10.live-pod-ip-unassigned", w.c04Key("live-pod-ip-unassigned", p.Key, 1),
+				w.fail("C10.live-pod-ip-unassigned", w.c10Key("live-pod-ip-unassigned", p.Key),
 					"UnAssignIP(%s from %s) while live pod %s (uid %s) bound to that node holds it", ip, node, p.key(), p.UID)
 				return
 			}
@@ -771,6 +783,19 @@ func (w *World) oracleC08Failed(br *bindReport) {
 // c04Key builds the finding signature of a violation caused by a release/re-key/unassign "by key": the circumstance
 // "the identity's key held IPs recorded for two different pod incarnations at some instant of the run" is part of the
 // signature, so that a violation without that circumstance is never mistaken for the recorded finding.
+// c10Key: as c04Key, plus the circumstance "the identity held several IPs at once" (a multi-IP pod): the cloud-provider
+// bookkeeping of galaxy-ipam is per key in several places (only the examined IP is unassigned before all IPs of the key
+// are cleared or freed; a partially assigned multi-IP bind is retried on another node without unassigning).
+func (w *World) c10Key(base, identity string) string {
+	if w.M.multiIP[identity] {
+		return base + ":pod-held-several-ips"
+	}
+	if w.M.mixedUIDs[identity] {
+		return base + ":identity-held-ips-of-two-incarnations"
+	}
+	return base
+}
+
 func (w *World) c04Key(base, identity string, atLeast int) string {
 	if w.M.mixedUIDs[identity] {
 		return base + ":identity-held-ips-of-two-incarnations"
